@@ -15,11 +15,40 @@ Import ListNotations.
     folded (with the C library's tolower) ONLY in single-byte server encodings.  This
     is the rule for multi-byte server encodings (UTF8, the default): high-bit bytes are
     left alone.  scan.l: a quoted identifier is taken verbatim.  Both are then
-    truncated to NAMEDATALEN-1 = 63 bytes (truncate_identifier; for multi-byte
-    encodings at a character boundary, which coincides with [firstn 63] on ASCII). *)
+    truncated by truncate_identifier: if len >= NAMEDATALEN then
+    len = pg_mbcliplen(ident, len, NAMEDATALEN - 1). *)
 Definition pg_fold (s : bytes) : bytes := map lower_ascii s.
+
+(** wchar.c pg_utf_mblen: length of the character that starts with byte b *)
+Definition clen (b : byte) : nat :=
+  if (b <? 128)%N then 1
+  else if ((192 <=? b) && (b <? 224))%N then 2
+  else if ((224 <=? b) && (b <? 240))%N then 3
+  else if ((240 <=? b) && (b <? 248))%N then 4
+  else 1.
+
+(** mbutils.c pg_encoding_mbcliplen (multi-byte branch):
+      while (len > 0 && *mbstr) { l = mblen(mbstr); if (clen + l > limit) break;
+                                  clen += l; if (clen == limit) break; len -= l; mbstr += l; }
+    [walk fuel limit s] is the resulting clen for the remaining limit. *)
+Fixpoint walk (fuel limit : nat) (s : bytes) : nat :=
+  match fuel with
+  | O => 0
+  | S f =>
+      match s with
+      | [] => 0
+      | c :: _ => let l := clen c in
+                  if Nat.ltb limit l then 0
+                  else if Nat.eqb limit l then l
+                  else l + walk f (limit - l) (skipn l s)
+      end
+  end.
+
+Definition pg_truncate (s : bytes) : bytes :=
+  if Nat.leb (length s) 63 then s else firstn (walk 64 63 s) s.
+
 Definition pg_resolve (i : ident) : bytes :=
-  firstn 63 (if quoted i then text i else pg_fold (text i)).
+  pg_truncate (if quoted i then text i else pg_fold (text i)).
 
 Definition last_ident (nm : objname) : option ident :=
   match rev nm with [] => None | i :: _ => Some i end.
@@ -28,8 +57,26 @@ Definition last_ident (nm : objname) : option ident :=
     the last component (the qualification selects a namespace, not another name). *)
 Definition pg_table (nm : objname) : option bytes := option_map pg_resolve (last_ident nm).
 
-Definition ascii_ident (i : ident) : bool := ascii_bytes (text i).
-Definition short_ident (i : ident) : bool := Nat.leb (length (text i)) 63.
+(** Well-formed UTF-8 as far as character boundaries go (what a Rust [String] always is,
+    and what PostgreSQL accepts in a UTF8 database): every character is a non-continuation
+    byte followed by exactly [clen - 1] continuation bytes. *)
+Inductive utf8 : bytes -> Prop :=
+| utf8_nil : utf8 []
+| utf8_char c conts rest :
+    is_cont c = false -> length conts = clen c - 1 -> Forall (fun b => is_cont b = true) conts ->
+    utf8 rest -> utf8 (c :: conts ++ rest).
+
+(** a checker for it (sound: Proofs.utf8b_sound) *)
+Fixpoint utf8b (fuel : nat) (s : bytes) : bool :=
+  match s with
+  | [] => true
+  | c :: r =>
+      match fuel with
+      | O => false
+      | S f => negb (is_cont c) && Nat.leb (clen c - 1) (length r)
+               && forallb is_cont (firstn (clen c - 1) r) && utf8b f (skipn (clen c - 1) r)
+      end
+  end.
 
 (* ------------------------------------------------------------------------- *)
 (** * 2. reading backend messages                                              *)
@@ -141,8 +188,9 @@ Definition read_reply (s : bytes) : option (list bmsg) :=
 Definition expected_col (c : bytes * bytes) : column :=
   mkCol (fst c) 0 0 (fst (dtype (snd c))) (snd (dtype (snd c))) (-1) 0.
 
-Definition expected_rule (user db : bytes) (r : rule) (cols : list (bytes * bytes)) : list bmsg :=
-  RowDescription (map expected_col cols) :: map DataRow (rule_rows user db r) ++ [CommandComplete s_select].
+Definition expected_rule (user db : bytes) (r : rule) : list bmsg :=
+  RowDescription (map expected_col (map schema_col (r_schema r)))
+  :: map DataRow (rule_rows user db r) ++ [CommandComplete s_select].
 
 (** a rule whose encoding is readable: every schema entry has name and type, names are
     C strings (no NUL), and every length the wire carries fits its field *)
@@ -150,10 +198,10 @@ Definition no_nul (s : bytes) : bool := forallb (fun b => negb (b =? 0)%N) s.
 Definition wf_byte (b : byte) : bool := (b <? 256)%N.
 
 Definition wf_rule (user db : bytes) (r : rule) : Prop :=
-  (exists cols, map_opt schema_col (r_schema r) = Some cols /\
-                zlen cols < 32768 /\
-                Forall (fun c => no_nul (fst c) = true) cols /\
-                zlen (concat (map col_desc cols)) < 2147483000) /\
+  (let cols := map schema_col (r_schema r) in
+   zlen cols < 32768 /\
+   Forall (fun c => no_nul (fst c) = true) cols /\
+   zlen (concat (map col_desc cols)) < 2147483000) /\
   Forall (fun row => zlen row < 32768 /\
                      zlen (concat (map cell_enc row)) < 2147483000) (rule_rows user db r).
 
